@@ -206,7 +206,7 @@ def main(argv=None):
     q = tier == "quick"
     rep = R.Report(PROP, tier, seed)
     items = []
-    n3, n4, n5 = (14, 5, 8) if q else (80, 50, 60)
+    n3, n4, n5 = (30, 14, 16) if q else (80, 50, 60)
     for _ in range(n3):
         d = c14.SRinput(rng, rng.randint(2, 3), rng.randint(2, 3))
         items += c14.rec_items(rng, d, 8 if q else 10 ** 6, 0, False, False, 4000 if q else 20000, 60.0 if q else 900.0)
